@@ -24,8 +24,11 @@ LITS = {
     'num': NUM(5), 'qty': NUM(5, 'kg'), 'str': ('str', 'm'), 'bool': ('bool', True), 'date': ('date', 2020, 6, 15),
     'time': ('time', 12, 0, 0, 0), 'uri': ('uri', 'http://u/'), 'ref': ('ref', 'x', None),
     'dt': ('dt', (2020, 6, 15, 12, 0, 0, 0), 0, 'UTC'), 'numf': NUM(2.5), 'neg': NUM(-3), 'str2': ('str', 'hello world'),
-    'false': ('bool', False), 'qty2': NUM(1.5, u'°C'),
+    'false': ('bool', False), 'qty2': NUM(1.5, u'\u00b0C'),
+    'str-esc': ('str', 'q"uo\\te'), 'str-uni': ('str', u'caf\u00e9 \U0001f600'), 'str-nl': ('str', 'two\nlines'),
+    'uri-esc': ('uri', 'http://u/`tick'), 'inf': NUM(float('inf')), 'ninf': NUM(float('-inf')), 'refdis': ('ref', 'x', 'Dis play'),
 }
+EXTRA_LITS = ('dt', 'numf', 'neg', 'str2', 'false', 'qty2', 'str-esc', 'str-uni', 'str-nl', 'uri-esc', 'inf', 'ninf')
 POOL = {
     # value pool per data tag: covers equal / below / above / other kind / other unit for every literal above
     'a': [None, D.NULL, D.MARKER, NUM(5), NUM(4), NUM(6), NUM(5.0), NUM(2.5), NUM(-3), NUM(5, 'kg'), NUM(4, 'kg'), NUM(6, 'kg'),
@@ -33,7 +36,9 @@ POOL = {
           ('date', 2019, 1, 1), ('date', 2021, 1, 1), ('time', 12, 0, 0, 0), ('time', 11, 59, 59, 0), ('time', 12, 0, 0, 1),
           ('uri', 'http://u/'), ('uri', 'http://v/'), ('ref', 'x', None), ('ref', 'y', None),
           ('dt', (2020, 6, 15, 12, 0, 0, 0), 0, 'UTC'), ('dt', (2020, 6, 15, 22, 0, 0, 0), 36000, 'Brisbane'),
-          ('dt', (2021, 1, 1, 0, 0, 0, 0), 0, 'UTC'), ('str', 'hello world'), NUM(1.5, u'°C'), ('coord', 1.0, 2.0)],
+          ('dt', (2021, 1, 1, 0, 0, 0, 0), 0, 'UTC'), ('str', 'hello world'), NUM(1.5, u'\u00b0C'), ('coord', 1.0, 2.0),
+          ('str', 'q"uo\\te'), ('str', u'caf\u00e9 \U0001f600'), ('str', 'two\nlines'), ('uri', 'http://u/`tick'), NUM(float('inf')),
+          NUM(float('-inf')), NUM(1e300)],
     'r': [None, ('ref', 'x', None), ('ref', 'y', None), ('ref', 'nowhere', None), ('str', 'x'), D.MARKER, NUM(5), ('ref', 'x', 'Dis')],
 }
 POOL['b'] = POOL['a']
@@ -90,6 +95,9 @@ def atoms_all():
         for op in F.OPS:
             for lk in ('num', 'qty', 'str', 'bool', 'date', 'time', 'uri', 'ref'):
                 A.append(('cmp', op, [t], LITS[lk]))
+    for lk in EXTRA_LITS:
+        for op in ('==', '!=', '<', '>='):
+            A.append(('cmp', op, ['a'], LITS[lk]))
     A += [('has', ['r', 'a']), ('not', ['r', 'a']), ('has', ['r']), ('not', ['r']), ('has', ['r', 'r', 'a']),
           ('cmp', '==', ['r', 'a'], LITS['num']), ('cmp', '<', ['r', 'a'], LITS['qty']), ('cmp', '!=', ['r', 'b'], LITS['str']),
           ('cmp', '==', ['r'], LITS['ref'])]
@@ -206,6 +214,7 @@ def report(ctx, ast, text, rows, variant, res, limit):
                         v = row.get(a[2][0]) if len(a[2]) == 1 else None
                         feats.add('op=' + a[1])
                         feats.add('lit=' + D.kind(a[3]))
+                        feats |= {'lit-' + f for f in D.features(a[3])}
                         kind = D.kind(a[3])
                         if len(a[2]) == 1:
                             feats.add('value=' + value_class(v, a[3]))
@@ -345,7 +354,7 @@ def run_shard(spec, ctx):
         ctx.sample({'atoms_all': len(atoms_all())})
     else:
         atoms = atoms_all()
-        lits_extra = [LITS[k] for k in ('dt', 'numf', 'neg', 'str2', 'false', 'qty2')]
+        lits_extra = [LITS[k] for k in EXTRA_LITS]
         for lit in lits_extra:
             for op in F.OPS:
                 atoms.append(('cmp', op, [r.choice(TAGS)], lit))
